@@ -15,6 +15,8 @@
 //                               inline / heap bytes (concat) / substring view
 //              lim=<usize>      heap limit (default u32::MAX)
 //              ga=<n> gp=<n>    ghost atoms / pairs pre-loaded before the program is built
+//              pre=1            (harness built with the instr feature) run through run_program_with_pre_eval
+//                               with an observe-only callback
 //   Trees use the transport format of util.rs. The part after " | " is never compared with the
 //   model (it depends on how the harness built the inputs), only between implementation runs.
 use crate::util::*;
@@ -185,6 +187,23 @@ pub fn run(t: &[&str]) -> String {
             if h != 0 { history(&mut a, h); }
             let p = build_tree(&mut a, ps, enc);
             let e = build_tree(&mut a, es, if enc == 0 { 0 } else { enc + 1 });
+            #[cfg(feature = "instr")]
+            if kv(opts, "pre").is_some() {
+                // the `pre-eval` feature with an observe-only callback (reads, allocates nothing)
+                use clvmr::run_program::{run_program_with_pre_eval, PreEval};
+                use std::cell::Cell;
+                use std::rc::Rc;
+                let seen = Rc::new(Cell::new(0u64));
+                let seen2 = seen.clone();
+                let pre: PreEval = Box::new(move |al: &mut Allocator, prg: NodePtr, _env: NodePtr| {
+                    let _ = al.sexp(prg);
+                    seen2.set(seen2.get() + 1);
+                    let s3 = seen2.clone();
+                    Ok(Some(Box::new(move |_al: &mut Allocator, _r: Option<NodePtr>| { s3.set(s3.get() + 1); })))
+                });
+                let r = run_program_with_pre_eval(&mut a, &ChiaDialect::new(flags), p, e, max_cost, Some(pre));
+                return outcome(&a, r);
+            }
             let r = match kv(opts, "d").unwrap_or("chia") {
                 "chia" => run_program(&mut a, &ChiaDialect::new(flags), p, e, max_cost),
                 "hide" => run_program(&mut a, &Hide(ChiaDialect::new(flags)), p, e, max_cost),
